@@ -514,6 +514,27 @@ def drain(pool):
         pool.pop()
         LOG.append('popped, %d left' % len(pool))
     return len(pool)
+def dropped(n):
+    # a variable deleted or rebound half-way: its resource is released there and then, not when the function returns
+    r = Res('d%d' % n)
+    x = n + 1
+    del r
+    LOG.append('deleted')
+    s = Res('e%d' % n)
+    y = x + 1
+    s = None
+    LOG.append('rebound')
+    return y
+def caller(n):
+    # ... and so for a variable of the calling function, while the function called is being looked at
+    c = Res('c%d' % n)
+    v = leaf(n)
+    del c
+    LOG.append('caller deleted')
+    return v
+def leaf(n):
+    z = n * 2
+    return z
 KEEP = []
 def scoped():
     p = Plain()
@@ -539,6 +560,10 @@ def main():
         LOG.append('after scoped')
         drain([Res('p0'), Res('p1')])
         LOG.append('after drain')
+        dropped(3)
+        LOG.append('after dropped')
+        caller(4)
+        LOG.append('after caller')
     finally:
         if was:
             gc.enable()
@@ -546,6 +571,32 @@ def main():
     out('lifetimes', len(LOG))
     return list(LOG)
 ''', hostile=True, only='C01')
+
+
+P('reads_own_frame', '''
+import sys
+DATA = {}
+def inner(n):
+    a = n + 1
+    seen = sys._getframe().f_locals['a']       # the program reads the mapping of its own frame (a logging helper does), and drops it
+    b = a + seen
+    k = sys._getframe(1).f_locals.get('k')     # ... and that of its caller
+    held = locals()
+    c = b + k
+    return a + b + c + held['a']
+def outer(n):
+    k = n * 3
+    v = inner(n)
+    w = k + v
+    mine = sys._getframe().f_locals
+    x = w + mine['k'] + mine['v']
+    return x
+def main():
+    r = [outer(i) for i in range(2)]
+    DATA['r'] = r
+    out('reads', r)
+    return r
+''', only='C01')
 
 
 P('thread_teardown', '''
